@@ -356,18 +356,19 @@ next:
 		if n == -1 {
 			return 0, Nil, true
 		}
-		full := n + 2
+		rest := int64(2) // what is left of the frame after the copy: the unread part of the payload and the CRLF
 		if n != 0 {
 			lr := lrs.Get().(*io.LimitedReader)
 			lr.R = i
 			lr.N = n
 			n, err = io.Copy(w, lr)
+			rest += lr.N // bytes read but refused by a failing writer are gone already: they must not be discarded again
 			lr.R = nil
 			lrs.Put(lr)
 		} else if typ == typeChunk {
 			return n, err, true
 		}
-		if _, err2 := i.Discard(int(full - n)); err2 == nil {
+		if _, err2 := i.Discard(int(rest)); err2 == nil {
 			clean = true
 		} else if err == nil {
 			err = err2
